@@ -231,6 +231,10 @@ def shape_kind_ok(e: dict, g: str) -> bool:
         return g == LEAF_KINDS[k].get(e.get("format"), "str") or (e.get("format") == "byte" and g == "str")
     if k == "enum_inline":
         # an inline enum is not a reference to a declared enum: its base type is as much as the statement asks for
+        if isinstance(e["values"][0], bool):
+            return g in ("bool", "literal") or g.startswith("enum:")
+        if g == "any":
+            return True     # an enum without a 'type' keyword: the spec gives no structural kind to hold it to
         return g.startswith("enum:") or g == ("int" if isinstance(e["values"][0], int) else "str")
     if k == "ref":
         if e.get("nullable") or e.get("sibling_nullable"):
@@ -242,7 +246,7 @@ def shape_kind_ok(e: dict, g: str) -> bool:
         return g == f"enum:{e['target']}"
     if k == "ref_alias":
         return g == "datetime"
-    if k == "free_form":
+    if k in ("free_form", "prim_union"):
         return True
     if k == "union":
         # every member model of the (possibly nested) union must still be named by the annotation
